@@ -107,7 +107,7 @@ theorem uncleLoop_iff (env : Env) (chain : Chain) (block : Block) (number : Nat)
           · exact Or.inr (Or.inr (Or.inl h))
           · exact Or.inr (Or.inr (Or.inr ⟨v, hv, h⟩))
           · subst hv; exact Or.inl h.symm)
-    unfold uncleLoop UnclesOkFrom uncleStep UncleOk
+    unfold uncleLoop UnclesOkFrom uncleStep UncleOk dupOk uncleTail loopCont
     have hnum' : number > 15000 := hnum
     simp only [hnum', if_true]
     by_cases hc : seen.contains u.hash = true
@@ -210,5 +210,214 @@ theorem verifyUncles_iff_aux (env : Env) (chain : Chain) (block : Block)
     constructor
     · intro h; exact ⟨hle, h⟩
     · intro h; exact h.2
+
+
+/-! ## all heights: with the grandfather clauses -/
+
+theorem lookupAnc_cons_isSome (a : Header) (l : List Header) (x : Nat) :
+    (lookupAnc (a :: l) x).isSome = true ↔ (a.hash = x ∨ (lookupAnc l x).isSome = true) := by
+  by_cases h : a.hash = x
+  · simp [lookupAnc, List.find?_cons, h]
+  · rw [lookupAnc_cons_ne a l x h]; simp [h]
+
+theorem uncleLoop_iff_ex (env : Env) (chain : Chain) (block : Block) (number : Nat) (past : List Nat)
+    (hV : env.V = Spec.vParams) (hord : env.cfg.ordered = true)
+    (hpast : ∀ x, x ∈ past ↔ ∃ a ∈ ancestorsOf chain 7 block.header.parentHash (subU64 block.header.number 1), ∃ v ∈ a.uncles, v.hash = x)
+    (hgas : ∀ a ∈ ancestorsOf chain 7 block.header.parentHash (subU64 block.header.number 1), a.header.gasLimit < two63) :
+    ∀ (us earlier : List Header) (seen : List Nat),
+      (∀ u ∈ us, UncleHyp block u) →
+      (∀ x, x ∈ seen ↔ (x = block.header.hash ∨ x ∈ past ∨ ∃ v ∈ earlier, v.hash = x)) →
+      (uncleLoop env chain block
+          (block.header :: ((ancestorsOf chain 7 block.header.parentHash (subU64 block.header.number 1)).map (·.header)).reverse)
+          number seen us = none ↔
+        UnclesOkFromEx env.P env.cfg env.sealBad chain block (decide (number ≤ 15000)) earlier us)
+  | [], _, _, _, _ => by simp [uncleLoop, UnclesOkFromEx]
+  | u :: rest, earlier, seen, hu, hseen => by
+    have huh := hu u List.mem_cons_self
+    have ih := uncleLoop_iff_ex env chain block number past hV hord hpast hgas rest (earlier ++ [u]) (u.hash :: seen)
+      (fun v hv => hu v (List.mem_cons_of_mem _ hv))
+      (by
+        intro x
+        simp only [List.mem_cons, hseen x, List.mem_append, List.mem_nil_iff, or_false]
+        constructor
+        · rintro (h | h | h | ⟨v, hv, h⟩)
+          · exact Or.inr (Or.inr ⟨u, Or.inr rfl, h.symm⟩)
+          · exact Or.inl h
+          · exact Or.inr (Or.inl h)
+          · exact Or.inr (Or.inr ⟨v, Or.inl hv, h⟩)
+        · rintro (h | h | ⟨v, hv | hv, h⟩)
+          · exact Or.inr (Or.inl h)
+          · exact Or.inr (Or.inr (Or.inl h))
+          · exact Or.inr (Or.inr (Or.inr ⟨v, hv, h⟩))
+          · subst hv; exact Or.inl h.symm)
+    -- "rewarded before" in the Spec's terms
+    have hnew : (seen.contains u.hash = false) ↔
+        ((∀ a ∈ ancestorsOf chain 7 block.header.parentHash (subU64 block.header.number 1), ∀ v ∈ a.uncles, v.hash ≠ u.hash) ∧
+          u.hash ≠ block.header.hash ∧ (∀ v ∈ earlier, v.hash ≠ u.hash)) := by
+      constructor
+      · intro hc
+        have hns : u.hash ∉ seen := by simpa using hc
+        exact ⟨fun a ha v hv h => hns ((hseen _).2 (Or.inr (Or.inl ((hpast _).2 ⟨a, ha, v, hv, h⟩)))),
+          fun h => hns ((hseen _).2 (Or.inl h)), fun v hv h => hns ((hseen _).2 (Or.inr (Or.inr ⟨v, hv, h⟩)))⟩
+      · intro ⟨c1, c2, c3⟩
+        have : u.hash ∉ seen := by
+          intro hm
+          rcases (hseen _).1 hm with h | h | ⟨v, hv, h⟩
+          · exact c2 h
+          · obtain ⟨a, ha, v, hv, h⟩ := (hpast _).1 h; exact c1 a ha v hv h
+          · exact c3 v hv h
+        simpa using this
+    -- the part of the loop body after the duplicate test, against the rest of the Spec clause
+    have tail : loopCont (uncleTail env chain block
+          (block.header :: ((ancestorsOf chain 7 block.header.parentHash (subU64 block.header.number 1)).map (·.header)).reverse) number (u.hash :: seen) u)
+          (fun seen' => uncleLoop env chain block
+            (block.header :: ((ancestorsOf chain 7 block.header.parentHash (subU64 block.header.number 1)).map (·.header)).reverse) number seen' rest) = none ↔
+        (u.hash ≠ block.header.hash ∧
+          (∀ a ∈ ancestorsOf chain 7 block.header.parentHash (subU64 block.header.number 1), a.header.hash ≠ u.hash) ∧
+          (match (if u.parentHash = block.header.parentHash then none
+                  else lookupAnc (((ancestorsOf chain 7 block.header.parentHash (subU64 block.header.number 1)).map (·.header)).reverse) u.parentHash) with
+           | some p => HeaderValid env.P env.cfg 0 env.sealBad u p true true ∧
+               UnclesOkFromEx env.P env.cfg env.sealBad chain block (decide (number ≤ 15000)) (earlier ++ [u]) rest
+           | none => decide (number ≤ 15000) = true ∧
+               ((u.parentHash, u.number) ∈ danglingParentExemptions ∨ (u.hash, u.number) ∈ danglingHashExemptions))) := by
+      unfold uncleTail loopCont
+      by_cases hanc : (lookupAnc (block.header :: ((ancestorsOf chain 7 block.header.parentHash (subU64 block.header.number 1)).map (·.header)).reverse) u.hash).isSome = true
+      · simp only [hanc, if_true, reduceCtorEq, false_iff, not_and]
+        rcases (lookupAnc_cons_isSome _ _ _).1 hanc with h | h
+        · intro c; exact (c h.symm).elim
+        · obtain ⟨a, ha, h'⟩ := (lookupAnc_isSome _ _).1 h
+          simp only [List.mem_reverse, List.mem_map] at ha
+          obtain ⟨b, hb, rfl⟩ := ha
+          intro _ c; exact (c b hb h').elim
+      · have hne : u.hash ≠ block.header.hash := fun h => hanc ((lookupAnc_cons_isSome _ _ _).2 (Or.inl h.symm))
+        have hanc' : ∀ a ∈ ancestorsOf chain 7 block.header.parentHash (subU64 block.header.number 1), a.header.hash ≠ u.hash := by
+          intro a ha h
+          apply hanc
+          exact (lookupAnc_cons_isSome _ _ _).2 (Or.inr ((lookupAnc_isSome _ _).2
+            ⟨a.header, by simp only [List.mem_reverse, List.mem_map]; exact ⟨a, ha, rfl⟩, h⟩))
+        simp only [hanc, Bool.false_eq_true, if_false]
+        rw [lookupAnc_cons_ne _ _ u.parentHash (fun h => huh.nocycle h.symm)]
+        by_cases hpp : u.parentHash = block.header.parentHash
+        · simp only [hpp, if_true]
+          by_cases hn : number > 15000
+          · have : ¬ number ≤ 15000 := by omega
+            simp [hn, this]
+          · have hl : number ≤ 15000 := by omega
+            simp only [hn, if_false, hl, decide_true, true_and]
+            by_cases e1 : danglingParentExemptions.contains (block.header.parentHash, u.number) = true
+            · have : (block.header.parentHash, u.number) ∈ danglingParentExemptions := by simpa using e1
+              simp [e1, this, hne]
+              exact hanc'
+            · have n1 : (block.header.parentHash, u.number) ∉ danglingParentExemptions := by simpa using e1
+              by_cases e2 : danglingHashExemptions.contains (u.hash, u.number) = true
+              · have : (u.hash, u.number) ∈ danglingHashExemptions := by simpa using e2
+                simp [e1, e2, this, hne]
+                exact hanc'
+              · have n2 : (u.hash, u.number) ∉ danglingHashExemptions := by simpa using e2
+                simp [e1, e2, n1, n2]
+        · simp only [hpp, if_false]
+          cases hl : lookupAnc ((ancestorsOf chain 7 block.header.parentHash (subU64 block.header.number 1)).map (·.header)).reverse u.parentHash with
+          | none =>
+            simp only
+            by_cases hn : number > 15000
+            · have : ¬ number ≤ 15000 := by omega
+              simp [hn, this]
+            · have hl' : number ≤ 15000 := by omega
+              simp only [hn, if_false, hl', decide_true, true_and]
+              by_cases e1 : danglingParentExemptions.contains (u.parentHash, u.number) = true
+              · have : (u.parentHash, u.number) ∈ danglingParentExemptions := by simpa using e1
+                simp [e1, this, hne]
+                exact hanc'
+              · have n1 : (u.parentHash, u.number) ∉ danglingParentExemptions := by simpa using e1
+                by_cases e2 : danglingHashExemptions.contains (u.hash, u.number) = true
+                · have : (u.hash, u.number) ∈ danglingHashExemptions := by simpa using e2
+                  simp [e1, e2, this, hne]
+                  exact hanc'
+                · have n2 : (u.hash, u.number) ∉ danglingHashExemptions := by simpa using e2
+                  simp [e1, e2, n1, n2]
+          | some p =>
+            simp only
+            have hpm := lookupAnc_mem _ _ _ hl
+            simp only [List.mem_reverse, List.mem_map] at hpm
+            obtain ⟨b, hb, hbp⟩ := hpm
+            have hpg : p.gasLimit < two63 := by rw [← hbp]; exact hgas b hb
+            rw [verifyHeader_eq_rule env u p _ true true hV hord hpg (fun h => by cases h) (fun _ => huh.time64)]
+            cases hr : headerRule env.P env.cfg env.now env.sealBad u p true true with
+            | some e =>
+              simp only [reduceCtorEq, false_iff, not_and]
+              intro _ _ c6
+              have := (headerRule_none_iff env.P env.cfg env.now env.sealBad u p true true).2
+                ((headerValid_uncle_now _ _ _ _ _ _ _ _).1 c6)
+              rw [hr] at this; cases this
+            | none =>
+              simp only
+              rw [ih]
+              have hv := (headerValid_uncle_now env.P env.cfg env.now 0 env.sealBad u p true).1
+                ((headerRule_none_iff env.P env.cfg env.now env.sealBad u p true true).1 hr)
+              constructor
+              · intro h; exact ⟨hne, hanc', hv, h⟩
+              · intro h; exact h.2.2.2
+    unfold uncleLoop UnclesOkFromEx uncleStep dupOk
+    by_cases hc : seen.contains u.hash = true
+    · have hnn : ¬ ((∀ a ∈ ancestorsOf chain 7 block.header.parentHash (subU64 block.header.number 1), ∀ v ∈ a.uncles, v.hash ≠ u.hash) ∧
+          u.hash ≠ block.header.hash ∧ (∀ v ∈ earlier, v.hash ≠ u.hash)) := by
+        intro h; have := hnew.2 h; rw [hc] at this; cases this
+      by_cases hn : number > 15000
+      · have hl : ¬ number ≤ 15000 := by omega
+        simp only [hc, if_true, hn, Bool.not_false, loopCont, reduceCtorEq, false_iff, hl, decide_false, Bool.false_eq_true, false_and, or_false]
+        intro h; exact (hnn h.1).elim
+      · have hl : number ≤ 15000 := by omega
+        by_cases e : dupExemptions.contains (block.header.hash, u.number) = true
+        · have em : (block.header.hash, u.number) ∈ dupExemptions := by simpa using e
+          simp only [hc, if_true, hn, if_false, e, Bool.not_true, Bool.false_eq_true]
+          refine Iff.trans tail ?_
+          exact ⟨fun h => ⟨Or.inr ⟨by simp [hl], em⟩, h⟩, fun h => h.2⟩
+        · have em : (block.header.hash, u.number) ∉ dupExemptions := by simpa using e
+          have ef : dupExemptions.contains (block.header.hash, u.number) = false := by simpa using e
+          simp only [hc, if_true, hn, if_false, ef, Bool.not_false, loopCont, reduceCtorEq, false_iff, em, and_false, or_false]
+          intro h; exact (hnn h.1).elim
+    · have hcf : seen.contains u.hash = false := by simpa using hc
+      simp only [hcf, Bool.false_eq_true, if_false, Bool.not_true]
+      refine Iff.trans tail ?_
+      exact ⟨fun h => ⟨Or.inl (hnew.1 hcf), h⟩, fun h => h.2⟩
+
+theorem verifyUncles_iff_ex_aux (env : Env) (chain : Chain) (block : Block)
+    (hV : env.V = Spec.vParams) (hord : env.cfg.ordered = true)
+    (hgas : ∀ a ∈ ancestorsOf chain 7 block.header.parentHash (subU64 block.header.number 1), a.header.gasLimit < two63)
+    (hu : ∀ u ∈ block.uncles, UncleHyp block u) :
+    verifyUncles env chain block = none ↔ UnclesValidEx env.P env.cfg env.sealBad chain block := by
+  unfold verifyUncles UnclesValidEx
+  rw [hV]
+  simp only [Spec.vParams]
+  by_cases c1 : block.uncles.length > 2
+  · have : ¬ block.uncles.length ≤ (if env.cfg.isHF 5 block.header.number = true then 1 else 2) := by split <;> omega
+    simp [c1, this]
+  have c1' : ¬ 2 < block.uncles.length := c1
+  have ha := gatherFamily_ancestors chain 7 block.header.parentHash (subU64 block.header.number 1) { ancestors := [], pastUncles := [], number := 0 }
+  have hp := fun x => gatherFamily_pastUncles chain x 7 block.header.parentHash (subU64 block.header.number 1) { ancestors := [], pastUncles := [], number := 0 }
+  rw [List.append_nil] at ha
+  generalize gatherFamily chain 7 block.header.parentHash (subU64 block.header.number 1) { ancestors := [], pastUncles := [], number := 0 } = f at *
+  have key := uncleLoop_iff_ex env chain block f.number f.pastUncles hV hord
+    (fun x => by rw [hp x]; simp) hgas block.uncles [] (block.header.hash :: f.pastUncles) hu (fun x => by simp)
+  rw [← ha] at key
+  by_cases h5 : env.cfg.isHF 5 block.header.number = true
+  · by_cases h1 : 1 < block.uncles.length
+    · have : ¬ block.uncles.length ≤ 1 := by omega
+      simp only [c1', if_false, h5, h1, decide_true, Bool.and_true, if_true, reduceCtorEq, false_iff, not_and]
+      intro h; exact (this h).elim
+    · have hle : block.uncles.length ≤ 1 := by omega
+      simp only [c1', if_false, h5, h1, decide_false, Bool.and_true, Bool.false_eq_true, if_true]
+      rw [key]
+      constructor
+      · intro h; exact ⟨hle, h⟩
+      · intro h; exact h.2
+  · have hle : block.uncles.length ≤ 2 := by omega
+    simp only [c1', if_false, h5, Bool.and_false, Bool.false_eq_true]
+    rw [key]
+    constructor
+    · intro h; exact ⟨hle, h⟩
+    · intro h; exact h.2
+
+
 
 end Aqv.Consensus
